@@ -256,6 +256,8 @@ class Interp:
     def truth(self, v):
         if isinstance(v, VBool):
             return v.e
+        if isinstance(v, VUndef):
+            return self.undef_bool()
         if isinstance(v, VInt):
             return v.e != 0
         if isinstance(v, VReal):
@@ -300,7 +302,12 @@ class Interp:
         return None
 
     # ------------------------------------------------------------------ equality / comparison
+    def undef_bool(self):
+        return self.path.fresh("undef", z3.BoolSort())
+
     def eq(self, a, b):
+        if isinstance(a, VUndef) or isinstance(b, VUndef):
+            return self.undef_bool()
         if a is b and not isinstance(a, (VReal,)):
             return z3.BoolVal(True)
         if isinstance(a, VNone) or isinstance(b, VNone):
@@ -357,6 +364,8 @@ class Interp:
 
     def lt(self, a, b, strict=True):
         """a < b (strict) or a <= b for ints/reals/strings/tuples"""
+        if isinstance(a, VUndef) or isinstance(b, VUndef):
+            return self.undef_bool()
         if isinstance(a, VOpt) or isinstance(b, VOpt):
             a, b = self.force(a), self.force(b)
         if isinstance(a, VNone) or isinstance(b, VNone):
@@ -389,7 +398,7 @@ class Interp:
     # ------------------------------------------------------------------ exceptions
     def raise_exc(self, cls, msg=""):
         if self.spec:
-            raise Unsupported("partial operation in spec mode: %s %s" % (cls, msg))
+            raise SpecUndef("partial operation in spec mode: %s %s" % (cls, msg))
         raise PyRaise(VExc(cls, [mk_const(msg)]))
 
     def require_defined(self, cond, cls, msg=""):
@@ -426,6 +435,11 @@ class Interp:
         m = getattr(self, "ev_" + type(n).__name__, None)
         if m is None:
             raise Unsupported("expression %s at line %s" % (type(n).__name__, getattr(n, "lineno", "?")))
+        if self.spec:
+            try:
+                return m(n, env)
+            except SpecUndef:
+                return VUndef()
         return m(n, env)
 
     def ev_Constant(self, n, env):
@@ -801,6 +815,8 @@ class Interp:
         v = self.ev(n.args[0], env)
         if isinstance(v, VOpt):
             return v.val()
+        if isinstance(v, VNone):
+            return VUndef()
         return v
 
     def spec_present(self, n, env):
@@ -1340,6 +1356,10 @@ class Interp:
     def ex_For(self, s, env):
         from . import builtins as B
         return B.exec_for(self, s, env)
+
+
+class SpecUndef(Exception):
+    pass
 
 
 class VEmptyList(V):
